@@ -143,6 +143,9 @@ package app
 //@   ensures [built_from_its_arguments] result != nil && fresh(result) && result.burst == real(ite(burst <= 0, 1, burst)) && (!nan(rps) && rps > 0.0 ==> result.rate == rps)
 //@   ensures [C12:starts_full] result != nil && !nan(rps) ==> bucketOK(result) && result.tokens == result.burst && result.burst == real(ite(burst <= 0, 1, burst))
 
+// time.Time.Sub saturates at the ends of the Duration range (about 292 years): the refill is computed from the saturated gap
+//@ spec
+//@ func satDur(d int) int := ite(d > 9223372036854775807, 9223372036854775807, ite(d < -9223372036854775808, -9223372036854775808, d))
 //@ func (*tokenBucketLimiter).AllowAt
 //@   requires now != 0
 //@   modifies l.tokens, l.last, limiterAsked, limiterVerdict, limiterCalls
@@ -150,8 +153,8 @@ package app
 //@   sets limiterVerdict := result
 //@   sets limiterCalls := old(limiterCalls) + 1
 //@   ensures [C12:nil_limiter_admits] l == nil ==> result
-//@   ensures [C12:step_bound] l != nil ==> real(l.tokens) + ite(result, 1.0, 0.0) <= old(real(l.tokens)) + max(0.0, real(now - ite(old(l.last) == 0, now, old(l.last))) / 1000000000.0) * real(l.rate)
-//@   ensures [C12:refuses_only_when_empty] l != nil && !result ==> l.tokens < 1 && l.tokens == min(real(l.burst), old(real(l.tokens)) + max(0.0, real(now - ite(old(l.last) == 0, now, old(l.last))) / 1000000000.0) * real(l.rate))
+//@   ensures [C12:step_bound] l != nil ==> real(l.tokens) + ite(result, 1.0, 0.0) <= old(real(l.tokens)) + max(0.0, real(satDur(now - ite(old(l.last) == 0, now, old(l.last)))) / 1000000000.0) * real(l.rate)
+//@   ensures [C12:refuses_only_when_empty] l != nil && !result ==> l.tokens < 1 && l.tokens == min(real(l.burst), old(real(l.tokens)) + max(0.0, real(satDur(now - ite(old(l.last) == 0, now, old(l.last)))) / 1000000000.0) * real(l.rate))
 //@   ensures [C12:clock_monotone] l != nil ==> l.last == ite(old(l.last) == 0, now, max(old(l.last), now))
 //@   ensures [recorded] limiterAsked == l && limiterVerdict == result && limiterCalls == old(limiterCalls) + 1
 
